@@ -15,7 +15,7 @@ Src6 == {"uni", "ll", "mcast", "unspec", "loop"}
 \* group of another host, equal to ours in the last 16 bits but not in the 24 that define the group
 Dst6 == {"own", "own2", "own-ll", "other", "other-tail", "all-nodes", "sol-node", "sol-other", "mc-other", "unspec", "loop"}
 Protos == {"echo", "icmp-err", "udp-open", "udp-bound", "udp-closed", "syn-open", "syn-bound", "syn-closed", "ack-closed", "rst-closed", "unknown",
-           "ns", "mld-query", "igmp-query", "hbh-unk", "hbh-err"}
+           "ns", "ns-other", "mld-query", "igmp-query", "hbh-unk", "hbh-err"}
 \* "opts": a clean IPv4 header carrying four octets of options; "ip-opt": the same with one bit of the options flipped
 Corrupt == {"none", "ip-hdr", "l4", "udp0", "opts", "ip-opt"}
 
@@ -36,6 +36,9 @@ Rows == { r \in [m : Media, ld : LinkDst, v : {4, 6}, s : Src4 \cup Src6, d : Ds
             /\ (r.p = "igmp-query" => r.v = 4 /\ r.d = "mc-all" /\ r.s = "uni-on" /\ r.ld \in {"own", "mcast"})
             /\ (r.p = "mld-query" => r.v = 6 /\ r.d = "all-nodes" /\ r.s = "ll" /\ r.ld \in {"own", "mcast"})
             /\ (r.p = "ns" => r.v = 6 /\ r.d \in {"own", "own-ll", "sol-node"} /\ r.s \in {"uni", "ll"} /\ r.ld \in {"own", "mcast"})
+            \* "ns-other": a solicitation sent to our solicited-node group whose target is another station's address (one
+            \* that shares the group, i.e. the last 24 bits, with ours): it asks about somebody else and draws no advertisement
+            /\ (r.p = "ns-other" => r.v = 6 /\ r.d = "sol-node" /\ r.s \in {"uni", "ll"} /\ r.ld \in {"own", "mcast"} /\ r.c = "none")
             \* corruption variants only where the clean packet is deliverable / answerable
             /\ (r.c # "none" => \/ (r.ld = "own" /\ r.d \in {"own", "own-ll", "own2"} /\ r.s \in {"uni-on", "uni", "ll"})
                                 \/ (r.p \in {"igmp-query", "mld-query"} /\ r.c = "l4")) }
